@@ -353,11 +353,10 @@ def monitors(env, case, real):
         nx = dict((k, v2) for k, v2 in st["next"])[case["dst"]]
         want = [e[1] for e in st["log"] if e[1] >= nx]
         mi = dict((k, v2) for k, v2 in st["match"]).get(case["dst"])
-        confirmed = mi is not None and mi >= nx - 1
-        # C11: what one run carries is a gap-free, duplicate-free prefix of the log suffix from nextIndex (the rest
-        # follows in later runs); non-empty when there is something to send; the whole suffix when the destination
-        # has confirmed the entry before it (repair D62 sends one batch to a destination that has not)
-        if carried != want[:len(carried)] or (want and not carried) or (confirmed and carried != want):
+        # C11: what one run carries is a gap-free, duplicate-free prefix of the log suffix from nextIndex, non-empty
+        # when there is something to send (repair D62 sends ONE batch to a destination that has not confirmed the
+        # preceding entry; the rest follows in later runs - how much one run carries is compared with the model only)
+        if carried != want[:len(carried)] or (want and not carried):
             v.append({"signature": SIG_PART, "what": "entries carried %s, log suffix %s, matchIndex %s nextIndex %s"
                                                      % (carried[:20], want[:20], mi, nx)})
     if op == "check":
